@@ -23,6 +23,7 @@ type Piece struct {
 	Size int
 	Args []*Term // app
 	ID   int     // opaque
+	Arr  *Term       // raw: the byte array the window reads (for extensional comparison)
 	Fn   interface{} // app: *ssa.Function
 	ArgV []Val       // app: original argument values (for unfolding)
 }
@@ -340,7 +341,20 @@ func matchT(a, b []Piece, depth int) *Term {
 		}
 		return And(Eq(x.T, y.T), side, matchT(a[1:], b[1:], depth+1))
 	case x.K == "raw" && y.K == "raw":
-		return And(Eq(x.Base, y.Base), Eq(x.Off, y.Off), Eq(x.Len, y.Len), matchT(a[1:], b[1:], depth+1))
+		same := And(Eq(x.Base, y.Base), Eq(x.Off, y.Off))
+		if x.Arr != nil && y.Arr != nil {
+			if x.Arr.String() == y.Arr.String() {
+				same = Eq(x.Off, y.Off)
+			}
+			if !same.IsTrue() {
+				// a copy is as good as a window: same contents, byte for byte
+				k := Sym(fresh("k"), 64)
+				ext := Forall(k, Implies(And(SLe(BVu(0, 64), k), SLt(k, x.Len)),
+					Eq(Select(x.Arr, Add(x.Off, k), 8), Select(y.Arr, Add(y.Off, k), 8))))
+				same = Or(same, ext)
+			}
+		}
+		return And(Eq(x.Len, y.Len), same, matchT(a[1:], b[1:], depth+1))
 	case x.K == "float" && y.K == "float":
 		if x.Fmt != y.Fmt || x.Prec != y.Prec || x.Size != y.Size || x.T.W != y.T.W {
 			return tFalse
